@@ -485,6 +485,160 @@ def reap_after_reuse(ctx, rng, prop, maxchan=1):
         sc.close()
 
 
+def oracle_ids_consistent(ctx, sc, prop):
+    """At quiescence a flow's identifier is registered on both ends or on neither: an end never frees an id
+    while its peer still has the flow open on it."""
+    t = sc.t
+    for i, f in enumerate(t.flows):
+        if not f.s_ever:
+            continue
+        newer = any(g is not f and g.chan == f.chan for g in t.flows[i + 1:])
+        if newer:
+            continue                # the id has been handed to a later flow: judged there
+        c_reg = bool(t.cmux.channels.get(f.chan))
+        s_reg = bool(t.smux.channels.get(f.chan))
+        if c_reg != s_reg:
+            report(ctx, sc, '%s:teardown:identifier-registered-on-one-end-only' % prop, i, 'quiescence',
+                   'registered on both ends or on neither', dict(client=c_reg, server=s_reg))
+            return False
+    return True
+
+
+def burst_in_one_read(ctx, rng, prop, nwrites, bufsize=32768, latency=False):
+    """Many small frames (several flows, tiny writes, their EOFs) reach the peer in ONE read of the tunnel and then
+    the tunnel goes quiet: the one wake-up must handle all of them, nothing may stay undecoded in the Mux."""
+    o = Opts(nflows=3, steps=0, bufsize=bufsize, latency=latency)
+    sc = Scenario(rng, o)
+    try:
+        t = sc.t
+        full = Io('ok', 'd65536', 's65536', False)
+        for _ in range(3):
+            sc.do(('accept',))
+        for _ in range(4):
+            sc.do(('deliver', 's', 'ok'))
+        if sc.stop or len(t.flows) < 3:
+            return sc.s.ins, sc.s.outs
+        for k in range(nwrites):
+            i = k % 3
+            sc.env_write(i, 'app', payload(rng, 1 + k % 5, 10 + k))
+            sc.do(('cb', 'c', i, full))
+            if latency and k % 7 == 6:
+                sc.do(('full', 'c'))
+        for i in range(3):
+            sc.do(('ae', i))
+            sc.do(('cb', 'c', i, full))
+        n = len(t.cmux.outbuf)
+        sc.do(('round', 's', n, [], Io('ok', 'a', 's65536', False)))      # everything in one read
+        if len(t.smux.inbuf if hasattr(t.smux, 'inbuf') else b''):
+            report(ctx, sc, '%s:burst:frames-left-undecoded-after-the-wake-up' % prop, 0, 'one read of %d frames' % n,
+                   'every complete frame handled in the wake-up that read it', '%d bytes left in the Mux' % len(t.smux.inbuf))
+            return sc.s.ins, sc.s.outs
+        for i in range(3):
+            sc.do(('de', i))
+        q = sc.drain()
+        if not sc.stop:
+            oracle_prefix(ctx, sc, prop, 'burst')
+            oracle_complete(ctx, sc, prop, q)
+            if q:
+                oracle_teardown(ctx, sc, prop)
+        oracle_alive(ctx, sc, prop, 'run')
+        return sc.s.ins, sc.s.outs
+    finally:
+        sc.close()
+
+
+def failure_tears_down(ctx, rng, prop, which, fault):
+    """An endpoint fails (reset on receive / error on send) while the other endpoint stays idle and never closes:
+    both tunnel ends must still shut their sockets, drop the handler and free the id."""
+    o = Opts(nflows=1, steps=0)
+    sc = Scenario(rng, o)
+    try:
+        t = sc.t
+        full = Io('ok', 'd65536', 's65536', False)
+        near = 'c' if which == 'app' else 's'
+        sc.do(('accept',))
+        sc.do(('deliver', 's', 'ok'))
+        sc.do(('deliver', 's', 'ok'))
+        if sc.stop or not t.flows:
+            return sc.s.ins, sc.s.outs
+        sc.env_write(0, 'app', payload(rng, 100, 1))
+        sc.env_write(0, 'dst', payload(rng, 100, 2))
+        sc.drain()
+        sc.faulty.add(0)
+        if fault == 'recv':
+            sc.do(('cb', near, 0, Io('ok', 'x', 's65536', False)))
+        else:
+            other = 'dst' if which == 'app' else 'app'
+            sc.env_write(0, other, payload(rng, 50, 3))       # something to send towards the failing endpoint
+            far = 's' if near == 'c' else 'c'
+            sc.do(('cb', far, 0, full))
+            srcq = t.cmux if far == 'c' else t.smux
+            while srcq.outbuf and not sc.stop:
+                sc.do(('deliver', near, 'ok'))
+            sc.do(('cb', near, 0, Io('ok', 'a', 'x', False)))
+        q = sc.drain()
+        if not sc.stop and q:
+            f = t.flows[0]
+            c_listed, s_listed = f.cproxy in t.chandlers, f.sproxy in t.shandlers
+            c_reg, s_reg = bool(t.cmux.channels.get(f.chan)), bool(t.smux.channels.get(f.chan))
+            # (a fully shut handler may stay listed until the next tunnel traffic gives it a callback: pre_select
+            # registers nothing for it; that is how the loop works and is not judged)
+            if c_reg or s_reg or not f.app.saw_shut or not f.dst.saw_shut:
+                report(ctx, sc, '%s:teardown:failed-flow-not-torn-down' % prop, 0,
+                       '%s endpoint %s error, the other endpoint idle' % (which, fault),
+                       'both sockets shut and the id free on both ends',
+                       dict(client_handler=c_listed, server_handler=s_listed, client_id_held=c_reg, server_id_held=s_reg,
+                            app_shut=f.app.saw_shut, dst_shut=f.dst.saw_shut))
+            else:
+                oracle_quiet(ctx, sc, prop)
+        elif not sc.stop:
+            report(ctx, sc, '%s:liveness:no-quiescence-within-bound' % prop, 0, 'drain', 'quiescent', 'still changing')
+        oracle_alive(ctx, sc, prop, 'run')
+        return sc.s.ins, sc.s.outs
+    finally:
+        sc.close()
+
+
+def closed_app_streaming_dst(ctx, rng, prop):
+    """The application goes away completely (end-of-stream, and writes to it fail with EPIPE) while the destination,
+    which only saw a half-close, keeps streaming: the flow must end on BOTH ends — an id freed on the client while
+    the server still has the flow open would later be handed to another connection."""
+    o = Opts(nflows=1, steps=0)
+    sc = Scenario(rng, o)
+    try:
+        t = sc.t
+        full = Io('ok', 'd65536', 's65536', False)
+        sc.do(('accept',))
+        sc.do(('deliver', 's', 'ok'))
+        sc.do(('deliver', 's', 'ok'))
+        if sc.stop or not t.flows:
+            return sc.s.ins, sc.s.outs
+        sc.env_write(0, 'app', payload(rng, 10, 1))
+        sc.do(('ae', 0))
+        sc.drain()
+        sc.refused.add((0, 'app'))
+        for k in range(4):
+            sc.env_write(0, 'dst', payload(rng, 3000, 20 + k))        # the destination keeps streaming
+            sc.do(('cb', 's', 0, full))
+            while t.smux.outbuf and not sc.stop:
+                sc.do(('deliver', 'c', 'ok'))
+            sc.do(('cb', 'c', 0, Io('ok', 'a', 'p', False)))            # the application is gone: EPIPE
+            for _ in range(3):
+                sc.do(('idle', 'c'))
+                sc.do(('cb', 'c', 0, Io('ok', 'a', 'p', False)))
+                while t.cmux.outbuf and not sc.stop:
+                    sc.do(('deliver', 's', 'ok'))
+                sc.do(('idle', 's'))
+                sc.do(('cb', 's', 0, full))
+        q = sc.drain()
+        if not sc.stop and q:
+            oracle_ids_consistent(ctx, sc, prop)
+        oracle_alive(ctx, sc, prop, 'run')
+        return sc.s.ins, sc.s.outs
+    finally:
+        sc.close()
+
+
 def replay_script(lines):
     """Re-run recorded driver input lines on the real code; returns the Scenario-like object."""
     cfg = lines[0].split()
